@@ -33,6 +33,27 @@ def bindParams (t : Table κ ν) (vars : List κ) (params : List ν) (nilT : ν)
   | v :: vs, [] => bindParams (insert t v nilT) vs [] nilT
   | v :: vs, p :: ps => bindParams (insert t v p) vs ps nilT
 
+/-- The loop of setBlockParameters as the extractor reads it (Gen/BlockFacts.lean): `sNil`/`bIdx` say what the
+surplus / other branch binds, `sOn`/`bOn` whether the loop reaches the next variable afterwards
+(`false` = `break` or `return`). When `guard` is false the loop never takes the surplus branch. -/
+def bindParamsG (guard sNil sOn bIdx bOn : Bool) (t : Table κ ν) (vars : List κ) (params : List ν) (nilT : ν) : Table κ ν :=
+  match vars, params with
+  | [], _ => t
+  | v :: vs, [] =>
+    if guard then
+      let t' := if sNil then insert t v nilT else t
+      if sOn then bindParamsG guard sNil sOn bIdx bOn t' vs [] nilT else t'
+    else t
+  | v :: vs, p :: ps =>
+    let t' := if bIdx then insert t v p else t
+    if bOn then bindParamsG guard sNil sOn bIdx bOn t' vs ps nilT else t'
+
+theorem bindParamsG_all (t : Table κ ν) (vars : List κ) (params : List ν) (nilT : ν) :
+    bindParamsG true true true true true t vars params nilT = bindParams t vars params nilT := by
+  induction vars generalizing t params with
+  | nil => cases params <;> simp [bindParamsG, bindParams]
+  | cons v vs ih => cases params <;> simp [bindParamsG, bindParams, ih]
+
 theorem lookup_filter_key (t : Table κ ν) (p : κ → Bool) (k : κ) :
     lookup (t.filter (fun e => p e.1)) k = if p k then lookup t k else none := by
   induction t with
